@@ -621,12 +621,12 @@ func (r *RawOption) Code() byte { return r.Type }
 func (r *RawOption) marshal() ([]byte, error) {
 	// Length specified in units of 8 bytes, and the caller must provide
 	// an accurate length.
-	l := int(r.Length * 8)
+	l := int(r.Length) * 8
 	if 1+1+len(r.Value) != l {
 		return nil, io.ErrUnexpectedEOF
 	}
 
-	b := make([]byte, r.Length*8)
+	b := make([]byte, l)
 	b[0] = r.Type
 	b[1] = r.Length
 
